@@ -54,7 +54,7 @@ impl FileStorage {
     }
 
     fn apply_wal(file: &mut File, wal: &mut WriteAheadLog) -> Result<(), DbError> {
-        for record in wal.records()? {
+        for record in wal.records()?.into_iter().rev() {
             Self::apply_wal_record(file, record)?;
         }
 
@@ -156,7 +156,7 @@ impl StorageData for FileStorage {
             Self::read_impl(&self.file, new_len, &mut buffer)?;
             self.wal.insert(new_len, &buffer)?;
         } else {
-            self.wal.insert(new_len, &[])?;
+            self.wal.insert(current_len, &[])?;
         }
 
         #[cfg(agdb_verif)]
@@ -167,11 +167,23 @@ impl StorageData for FileStorage {
     }
 
     fn write(&mut self, pos: u64, bytes: &[u8]) -> Result<(), DbError> {
+        if bytes.is_empty() {
+            return Ok(());
+        }
+
         let current_len = self.len();
         let end = pos + bytes.len() as u64;
-        let mut buffer = vec![0_u8; (std::cmp::min(current_len, end) - pos) as usize];
-        Self::read_impl(&self.file, pos, &mut buffer)?;
-        self.wal.insert(pos, &buffer)?;
+
+        if current_len < end {
+            self.wal.insert(current_len, &[])?;
+        }
+
+        if pos < current_len {
+            let mut buffer = vec![0_u8; (std::cmp::min(current_len, end) - pos) as usize];
+            Self::read_impl(&self.file, pos, &mut buffer)?;
+            self.wal.insert(pos, &buffer)?;
+        }
+
         #[cfg(agdb_verif)]
         crate::verif::fs_event(crate::verif::FsEvent::DataWrite { pos, bytes });
         self.file.seek(SeekFrom::Start(pos))?;
